@@ -13,7 +13,7 @@ def modelled():
         _MODELLED = dict(canon.modelled())
         # protocol families are pluggable: harness/canon_<family>.py with a modelled() function
         import importlib
-        for family in ('ssh', 'dns', 'opp'):
+        for family in ('ssh', 'dns', 'opp', 'ssl2'):
             try:
                 mod = importlib.import_module('harness.canon_' + family)
             except ImportError:
